@@ -55,6 +55,7 @@ def specs(
     styles=('legacy', 'registry'),
     min_algs=1,
     levels=('alg', 'sv', 'val'),
+    where=False,
 ):
     n_pkgs = draw(st.integers(1, max_pkgs))
     n_algs = draw(st.integers(min_algs, max_algs))
@@ -118,6 +119,9 @@ def specs(
                     if events and draw(st.integers(0, 2)) == 0
                     else []
                 ),
+                # where the algorithm asks to be run (None: not overridden)
+                'where': (draw(st.sampled_from(['cloud', 'cluster', 'auto']))
+                          if where and draw(st.integers(0, 2)) == 0 else None),
             }
         )
     if feedback:
@@ -426,6 +430,12 @@ def sources(spec, base, viol=None):
                 bot += [
                     '    def name(self):',
                     f'        return {aname!r}',
+                    '',
+                ]
+            if a.get('where'):
+                bot += [
+                    '    def where(self):',
+                    f'        return dawgie.Distribution.{a["where"]}',
                     '',
                 ]
             if not hit('no-svs-method', alg=i):
